@@ -39,7 +39,7 @@ FAMILIES = {
     "tls-server": dict(consts={"Conns": '{"c1", "c2"}', "MaxReq": "1", "FrameKinds": '{"op", "unbind"}', "TLSMode": '"server"'}, depth=5,
                        cfgs=[{"unbind_route": "0", "tls": "tls"}, {"unbind_route": "1", "tls": "tls"}], must=lambda b: any(e["a"] == "send" for e in b)),
     "tls-mtls": dict(consts={"Conns": '{"c1", "c2"}', "MaxReq": "1", "FrameKinds": '{"op", "unbind"}', "TLSMode": '"mtls"'}, depth=5,
-                     cfgs=[{"unbind_route": "0", "tls": "mtls"}, {"unbind_route": "1", "tls": "mtls"}], must=lambda b: any(e["a"] == "send" for e in b)),
+                     cfgs=[{"unbind_route": "0", "tls": "mtls"}, {"unbind_route": "1", "tls": "mtls"}, {"unbind_route": "0", "tls": "mtls-vc"}], must=lambda b: any(e["a"] == "send" for e in b)),
     # TLS sessions that end with an orderly close / a TCP reset (the close_notify cannot be written), with a bystander
     "tls-close": dict(consts={"Conns": '{"c1", "c2"}', "MaxReq": "1", "FrameKinds": '{"op"}', "TLSMode": '"server"'}, depth=5,
                       cfgs=[{"unbind_route": "0", "tls": "tls", "reset": "1"}, {"unbind_route": "0", "tls": "tls"}],
@@ -97,8 +97,10 @@ def attribute(pid, res, rows, scenarios):
             continue      # C17 speaks about Run's return only where Run cannot listen
         if (name, sid) in seen:
             continue
-        seen.add((name, sid))
         sc = by_id.get(sid, {})
+        if sc.get("cfg", {}).get("stop_storm") == "1" and (name.startswith("Late_") or name.startswith("Extra_")):
+            continue      # connections of the harness itself race Stop there: only what is missing at the end is judged
+        seen.add((name, sid))
         envs = [[e["a"], e["c"], e["i"], e["k"], e["hold"]] for e in sc.get("behaviour", []) if e["a"] in scen.ENV]
         out.append({"signature": {"monitor": name, "cfg": sc.get("cfg"), "env": envs},
                     "what": "%s false in scenario %s %s (event %s)" % (name, json.dumps(sc.get("cfg")), json.dumps(envs),
@@ -251,6 +253,14 @@ def scripted_family(run, fam, quick):
         tl = [[R, D("c1", "silent"), T("c1")], [R, D("c1", "valid"), S("c1", "op"), T("c1")], [R, D("c1", "valid"), T("c1"), stop1]]
         out += [(b, {"unbind_route": "0", "read_timeout_ms": ms, "tls": "tls"}) for b in scen.scripted(run, tl, dict(base, TLSMode='"server"'))]
         return out
+    elif fam == "stop-storm":
+        # clients connecting at the very moment Stop is called: Stop and Run return all the same
+        R, D = {"a": "run"}, lambda c: {"a": "dial", "c": c}
+        S = lambda c, k, hold=False: {"a": "send", "c": c, "k": k, "hold": hold}
+        stop1 = {"a": "stop", "s": "s1"}
+        consts = {"Conns": '{"c1"}', "MaxReq": "2", "FrameKinds": '{"op"}'}
+        scripts = [[R, stop1], [R, D("c1"), S("c1", "op"), stop1], [R, D("c1"), S("c1", "op", True), stop1, {"a": "release", "c": "c1", "i": 1}]]
+        return [(b, {"unbind_route": "0", "stop_storm": "1"}) for b in scen.scripted(run, scripts, consts)] * (8 if quick else 40)
     elif fam == "tls-stall":
         # peers that connect to a TLS listener and then stall (never start the handshake / send half a record / plaintext):
         # later connections are accepted and served all the same
@@ -350,7 +360,8 @@ def scripted_family(run, fam, quick):
         return out
     elif fam == "ready":
         ok_addrs = ["", "ipv6", "ipv6-bare", "host", "port-only"]
-        bad_addrs = ["in-use", "in-use-gldap", "bad-noport", "bad-ipv4", "bad-ipv6", "bad-bracket", "bad-emptyport", "bad-brackets-empty", "bad-brackets-host"]
+        bad_addrs = ["in-use", "in-use-gldap", "bad-noport", "bad-ipv4", "bad-ipv6", "bad-bracket", "bad-emptyport", "bad-brackets-empty", "bad-brackets-host",
+                     "bad-2brackets", "bad-bracket-close2", "bad-bracket-open2", "bad-brackets-ipv4", "bad-brackets-front"]
         consts = {"Conns": '{"c1"}', "MaxReq": "1", "FrameKinds": '{"op"}'}
         good = scen.scripted(run, [[{"a": "run"}, {"a": "dial", "c": "c1"}, {"a": "send", "c": "c1", "k": "op"}, {"a": "stop", "s": "s1"}]], consts)
         failing = scen.scripted(run, [[{"a": "run"}]], dict(consts, ListenFails="TRUE"))
@@ -376,7 +387,7 @@ def scripted_family(run, fam, quick):
     return [(b, dict(cfgs[n % len(cfgs)])) for n, b in enumerate(behs)]
 
 
-SCRIPTED = {"deep", "manyconns", "ready", "stopstates", "starttls2", "starttls-inflight", "starttls-close", "timeout", "starttls-adversarial", "outliving", "idle", "tls-stall"}
+SCRIPTED = {"deep", "manyconns", "ready", "stopstates", "starttls2", "starttls-inflight", "starttls-close", "timeout", "starttls-adversarial", "outliving", "idle", "tls-stall", "stop-storm"}
 
 
 def run_families(run, names, cap):
